@@ -17,7 +17,7 @@ pub struct GroupMode {
     pub roots: usize,
     /// transform program: 0 cat, 1 head:1, 2 const, 3 fail, 4 failafterread, 5 noout,
     /// 6 scribble (rewrites the file given as $IN; only generated without --no-copy, where $IN is a
-    /// private copy)
+    /// private copy), 7 sidefile (leaves `$IN.side` beside its input; same restriction)
     pub prog: Option<u8>,
     /// 0 pipe, 1 $IN, 2 $OUT, 3 $IN+$OUT, 4 --in-place with $IN (the helper never writes to $IN)
     pub io: u8,
@@ -42,6 +42,9 @@ pub struct GroupMode {
     /// root lives directly in TMPDIR, is named `fclones-data` and has not been touched for years
     #[serde(default)]
     pub tmp_mode: u8,
+    /// every second regular file of the tree is made read-only (0444) before the run
+    #[serde(default)]
+    pub readonly_files: bool,
 }
 
 #[derive(Clone, Debug, Serialize, Deserialize)]
@@ -67,9 +70,9 @@ fn group_strategy() -> BoxedStrategy<C07Case> {
                 near_dup_pairs: 1,
                 resplit: 0,
             };
-            (
+            ((
                 tree_strategy(&p),
-                prop::option::weighted(0.85, prop_oneof![6 => 0u8..6, 2 => Just(6u8)]),
+                prop::option::weighted(0.85, prop_oneof![6 => 0u8..6, 2 => Just(6u8), 1 => Just(7u8)]),
                 0u8..5,
                 prop::bool::weighted(0.45),
                 prop::bool::weighted(0.3),
@@ -80,16 +83,18 @@ fn group_strategy() -> BoxedStrategy<C07Case> {
                 prop::bool::weighted(0.35),
                 prop::option::weighted(0.25, (1u8..8, any::<bool>())),
                 prop_oneof![8 => Just(0u8), 1 => Just(1u8), 1 => Just(2u8)],
+            ),
+                prop::bool::weighted(0.3),
             )
-                .prop_map(move |(tree, prog, mut io, mut no_copy, cache, output_file, links, threads, env_mode, cwd_in_root, tmp_fault, tmp_mode)| {
-                    if prog == Some(6) {
+                .prop_map(move |((tree, prog, mut io, mut no_copy, cache, output_file, links, threads, env_mode, cwd_in_root, tmp_fault, tmp_mode), readonly_files)| {
+                    if prog == Some(6) || prog == Some(7) {
                         // the scribbling helper needs a file name and must only ever get a private copy
                         no_copy = false;
                         if io % 5 == 0 || io % 5 == 2 {
                             io = 4;
                         }
                     }
-                    C07Case::Group(GroupMode { tree, roots, prog, io, no_copy, cache, output_file, links, threads, env_mode, cwd_in_root, tmp_fault, tmp_mode })
+                    C07Case::Group(GroupMode { tree, roots, prog, io, no_copy, cache, output_file, links, threads, env_mode, cwd_in_root, tmp_fault, tmp_mode, readonly_files })
                 })
         })
         .boxed()
@@ -119,14 +124,15 @@ fn case_strategy() -> BoxedStrategy<C07Case> {
 }
 
 fn transform_cmd(g: &GroupMode) -> Option<(String, bool)> {
-    let prog = match g.prog? % 7 {
+    let prog = match g.prog? % 8 {
         0 => "cat",
         1 => "head:1",
         2 => "const",
         3 => "fail",
         4 => "failafterread",
         5 => "noout",
-        _ => "scribble",
+        6 => "scribble",
+        _ => "sidefile",
     };
     let (cmd, in_place) = match g.io % 5 {
         0 => (format!("fcv-tr {}", prog), false),
@@ -181,14 +187,28 @@ fn run_group_mode(g: &GroupMode, n: u64) -> Verdict {
     let cd = CaseDir::new("c07", n, Fs::Tmpfs);
     let tree = cd.tree();
     g.tree.build(&tree);
+    let mut sig: Vec<String> = vec!["mode-group".into()];
+    if g.readonly_files {
+        use std::os::unix::fs::PermissionsExt;
+        let snap = Snapshot::take(&[&tree]);
+        let mut k = 0;
+        for (p, node) in snap.nodes.iter() {
+            if node.kind == NodeKind::File {
+                k += 1;
+                if k % 2 == 0 {
+                    let _ = std::fs::set_permissions(bytes_path(p), std::fs::Permissions::from_mode(0o444));
+                }
+            }
+        }
+        sig.push("read-only-files".into());
+    }
     let before = Snapshot::take(&[&tree]);
     let mut args: Vec<OsString> = vec!["group".into()];
-    let mut sig: Vec<String> = vec!["mode-group".into()];
     if let Some((cmd, in_place)) = transform_cmd(g) {
         args.push("--transform".into());
         args.push(cmd.clone().into());
         sig.push(format!("io-{}", g.io % 5));
-        sig.push(format!("prog-{}", g.prog.unwrap_or(0) % 7));
+        sig.push(format!("prog-{}", g.prog.unwrap_or(0) % 8));
         if in_place {
             args.push("--in-place".into());
             sig.push("in-place".into());
